@@ -9,7 +9,6 @@ import (
 	"encoding/binary"
 	"math/rand/v2"
 	"net/netip"
-	"reflect"
 
 	"github.com/osrg/gobgp/v4/pkg/packet/bgp"
 )
@@ -136,7 +135,7 @@ func c19BGPCanon(m *bgp.BGPMessage) *bgp.BGPMessage {
 		return nil
 	}
 	m3, err := bgp.ParseBGPMessage(b2)
-	if err != nil || !reflect.DeepEqual(m2, m3) {
+	if err != nil || !DeepEqual(m2, m3) {
 		return nil
 	}
 	return m2
